@@ -21,7 +21,7 @@ using namespace mc;
 const char *mc_id = "C09";
 const char *mc_rule = "DFS: all section/option trees up to depth D / fan-out F (sibling names distinct by default, up to B label deviations over names {a,b,ab,a1,a_b,'a b'} "
                       "permitted by the name flags and values {x, empty, 'x y', quoted with escaped quote, quoted with blanks+delimiters, f#g, quoted \"q\"}) "
-                      "x 7 documented format strings (3 section styles) x decoration masks (indent, trailing blanks, blank lines, comment lines, trailing comments, "
+                      "x 9 format strings (the 5 ctest formats, the default, 3 section styles) x decoration masks (indent, trailing blanks, blank lines, comment lines, trailing comments, "
                       "inner padding, line layout, no final newline, one item per line), plus small trees holding one value of length 240..260 / 65530..65540 / 131077; "
                       "real mpt_parse_node vs generating tree and vs the undecorated parse; nontrivial = distinct (tree,format,mask) documents with a non-empty mask "
                       "whose tree has at least one section containing a child, or which hold a value of >= 250 bytes";
@@ -40,6 +40,8 @@ static const Fmt fmts[] = {
 	{ "layout_alt", "[*] = !",    0,      '*', '[', ']', '=', 0,   "!",  "\"'" },
 	{ "subsect",    "{*} =;!#",   "E",    '*', '{', '}', '=', ';', "!#", "\"'" },
 	{ "config",     "[ ] = #",    "Esc",  ' ', '[', ']', '=', 0,   "#",  "\"'" },
+	// the same format without a name restriction argument (all name flags set, as parse_layout_alt runs it)
+	{ "config_all", "[ ] = #",    0,      ' ', '[', ']', '=', 0,   "#",  "\"'" },
 	// library default (mpt_parse_format(fmt, 0)) with the default name limits of mpt_node_parse
 	{ "default",    0,            "ns",   '*', '{', '}', '=', 0,   "#",  "\"'" },
 	// third style, no shipped example: "separator before section name and at section end" (parse_format_enc.c)
@@ -91,7 +93,7 @@ static void canon_model(const std::vector<TN> &l, std::string &out)
 		out += ' ';
 	}
 }
-struct Feat { size_t nodes, maxlen; bool nested, quoted, escq, emptysect, emptyval, dup, depth3; };
+struct Feat { size_t nodes, maxlen; bool nested, quoted, escq, emptysect, emptyval, dup, depth3, blankname; };
 static void features(const std::vector<TN> &l, int depth, Feat &f)
 {
 	for (size_t i = 0; i < l.size(); ++i) {
@@ -100,6 +102,7 @@ static void features(const std::vector<TN> &l, int depth, Feat &f)
 		if (n.val.size() > f.maxlen) f.maxlen = n.val.size();
 		if (n.quote) { f.quoted = true; if (n.val.find_first_of("\"'`") != std::string::npos) f.escq = true; }
 		if (n.sect && n.kids.empty()) f.emptysect = true;
+		if (n.name.find(' ') != std::string::npos) f.blankname = true;
 		if (!n.sect && n.val.empty()) f.emptyval = true;
 		if (!n.kids.empty()) { f.nested = true; if (depth >= 2) f.depth3 = true; }
 		for (size_t k = 0; k < i; ++k) if (l[k].name == n.name) f.dup = true;
@@ -340,10 +343,10 @@ void mc_jobs(Tier t, std::vector<std::string> &jobs)
 		add_tree_jobs(jobs, 3, 2, 0, 7, "few", 1);
 	} else {
 		for (int i = 0; i < NFMT; ++i) for (unsigned k = 0; k < 4; ++k) jobs.push_back(fmt("len:%s:thorough:%u/4", fmts[i].id, k));
-		add_tree_jobs(jobs, 2, 2, 2, 7, "all", 4);
-		add_tree_jobs(jobs, 2, 3, 1, 7, "few", 4);
-		add_tree_jobs(jobs, 3, 2, 1, 7, "min", 2);
-		add_tree_jobs(jobs, 3, 2, 0, 7, "all", 1);
+		add_tree_jobs(jobs, 2, 3, 1, 7, "min", 4);
+		add_tree_jobs(jobs, 3, 2, 0, 7, "all", 2);
+		add_tree_jobs(jobs, 2, 2, 2, 7, "few", 2);
+		add_tree_jobs(jobs, 2, 2, 1, 7, "all", 1);
 	}
 }
 static std::vector<unsigned> masks_for(const Fmt &f, const std::string &set)
@@ -387,7 +390,7 @@ static void check_case(Run &r, const Fmt &f, const std::vector<TN> &tree, unsign
 		tc.key = treekey; tc.want.clear(); canon_model(tree, tc.want);
 		memset(&tc.ft, 0, sizeof tc.ft); features(tree, 1, tc.ft);
 		tc.lencl = tc.ft.maxlen < 250 ? 0 : (tc.ft.maxlen < 255 ? 1 : (tc.ft.maxlen < 65536 ? 2 : 3));
-		tc.sigbase = std::string(stylename(f.style)) + "|" + lencls(tc.ft.maxlen) + "|";
+		tc.sigbase = std::string(stylename(f.style)) + "|" + lencls(tc.ft.maxlen) + (tc.ft.blankname ? ",blank-in-name" : "") + "|";
 		// undecorated reference parse
 		std::string plain = render(f, tree, 0);
 		Parsed pp = real_parse(r, f, plain); ++r.transitions;
